@@ -33,7 +33,7 @@ spec fn cv<'a, T: Clone>(c: std::borrow::Cow<'a, T>) -> T {
 
 impl<A: ActorSig> Out<A> {
     // abstract view: the sequence of commands recorded so far
-    spec fn view(&self) -> Seq<Command<A::Msg, A::Timer, A::Random>> { self.0@ }
+    pub closed spec fn view(&self) -> Seq<Command<A::Msg, A::Timer, A::Random>> { self.0@ }
 
 /*@fn src/actor.rs :: impl<A: Actor> Out<A> :: new
 ensures:
@@ -59,7 +59,9 @@ impl<A: ActorSig> IntoIterator for Out<A> {
 @*/
 /*@fn src/actor.rs :: impl<A: Actor> IntoIterator for Out<A> :: into_iter
 ensures:
-    [seq] r.remaining() == self.0@
+    [seq] r.remaining() == self@
+    [laws] r.obeys_prophetic_iter_laws()
+    [finite] r.decrease() is Some
 @*/
 }
 
